@@ -98,3 +98,9 @@
 (declare-fun statE (String) ErrV)
 (declare-const osErrNotExist ErrV)
 (define-fun fileMissing ((p String)) Bool (= (statE p) osErrNotExist))
+; Go strings are byte sequences: len, s[i] and s[a:b] count bytes, while the model's strings are code-point sequences.
+; byteLen / strByte / byteSub are the byte-level operations; they coincide with the code-point ones on ASCII text.
+(declare-fun byteLen (String) Int)
+(declare-fun strByte (String Int) Int)
+(declare-fun byteSub (String Int Int) String)
+(define-fun isAscii ((s String)) Bool (str.in_re s (re.* (re.range "\u{0}" "\u{7f}"))))
